@@ -201,6 +201,26 @@ def _tail(s: str, n: int = 40) -> str:
     return "\n".join(l[:400] for l in lines[-n:])
 
 
+def apalache(module: str, inv: str, *, init: str = "Init", length: int = 0, timeout: int = 600) -> tuple[str, float]:
+    """Run apalache-mc on spec/<module>.tla; returns ('NoError' | 'Error' | 'unavailable', seconds)."""
+    out = WORK / "apalache" / f"{module}-{inv}-{os.getpid()}"
+    out.mkdir(parents=True, exist_ok=True)
+    t0 = time.time()
+    try:
+        p = subprocess.run(["apalache-mc", "check", f"--init={init}", f"--inv={inv}", f"--length={length}", f"--out-dir={out}",
+                            str(SPEC / f"{module}.tla")], cwd=out, capture_output=True, text=True, timeout=timeout)
+    except (FileNotFoundError, subprocess.TimeoutExpired):
+        shutil.rmtree(out, ignore_errors=True)
+        return "unavailable", time.time() - t0
+    shutil.rmtree(out, ignore_errors=True)
+    txt = p.stdout + p.stderr
+    if "The outcome is: NoError" in txt:
+        return "NoError", time.time() - t0
+    if "invariant 0 violated" in txt or "Found 1 error" in txt:
+        return "Error", time.time() - t0
+    return "unavailable", time.time() - t0
+
+
 def check_not_vacuous(res: TLCResult, actions: Iterable[str]) -> None:
     for a in actions:
         if a in res.coverage and res.coverage[a][0] == 0:
